@@ -204,6 +204,33 @@ class Body:
         r = self.reachable(start, removed_nodes=through_nodes, removed_edges=through_edges)
         return target not in r
 
+    def must_pass_fs(self, target, through_nodes=(), through_edges=(), start=0):
+        """Flag-sensitive must_pass: bool locals that are only ever assigned constants are tracked exactly,
+        so infeasible combinations of hand-written / drop flags are not explored."""
+        through_nodes = set(through_nodes)
+        through_edges = set(through_edges)
+        if target in through_nodes:
+            return True
+        hit = [False]
+
+        def transfer(bb, us, phase, data):
+            if phase == "stmts":
+                if bb == target:
+                    hit[0] = True
+                    return None
+                if bb in through_nodes:
+                    return None
+                return us
+            lab, tg = data
+            if (bb, tg) in through_edges:
+                return None
+            return us
+        try:
+            self.explore(0, transfer, start=start)
+        except ExploreCap:
+            return self.must_pass(target, through_nodes, through_edges, start)
+        return not hit[0]
+
     def dominators(self):
         """Immediate dominators over the normal-flow CFG (iterative)."""
         if self._dom is not None:
@@ -443,9 +470,26 @@ class Body:
             if count > cap:
                 raise ExploreCap(self.path)
             fl = list(fl)
+            tmp = {}   # block-local values of temps computed from flags (copies, Not)
             for st in self.blocks[bb]["stmts"]:
-                if st["k"] == "assign" and not st["pl"]["p"] and st["pl"]["l"] in fidx:
-                    fl[fidx[st["pl"]["l"]]] = int(st["rv"]["ops"][0]["val"])
+                if st["k"] != "assign" or st["pl"]["p"]:
+                    continue
+                dl = st["pl"]["l"]
+                if dl in fidx:
+                    fl[fidx[dl]] = int(st["rv"]["ops"][0]["val"])
+                    continue
+                rv = st["rv"]
+                if rv["k"] in ("use", "unop") and rv["ops"] and rv["ops"][0]["k"] in ("copy", "move") and not rv["ops"][0]["pl"]["p"]:
+                    sl = rv["ops"][0]["pl"]["l"]
+                    v = fl[fidx[sl]] if sl in fidx else tmp.get(sl)
+                    if v is not None and rv["k"] == "use":
+                        tmp[dl] = v
+                    elif v is not None and rv.get("op") == "Not":
+                        tmp[dl] = 1 - v
+                    else:
+                        tmp.pop(dl, None)
+                else:
+                    tmp.pop(dl, None)
             us2 = transfer(bb, us, "stmts", self.blocks[bb])
             if us2 is None:
                 continue
@@ -453,8 +497,8 @@ class Body:
             allowed = None
             if t["k"] == "switch" and t["discr"]["k"] in ("copy", "move") and not t["discr"]["pl"]["p"]:
                 l = t["discr"]["pl"]["l"]
-                if l in fidx and fl[fidx[l]] is not None:
-                    v = fl[fidx[l]]
+                v = fl[fidx[l]] if l in fidx else tmp.get(l)
+                if v is not None:
                     allowed = None
                     for val, tg in t["targets"]:
                         if int(val) == v:
@@ -530,7 +574,10 @@ class Program:
                 return self.bodies[c[0]]
         return b
 
-    def callees_of_site(self, cs):
+    DETACHED = {"std::thread::Builder::spawn", "std::thread::spawn",
+                "versioning::file_iterators::MergingIterator::register_cleanup_method"}
+
+    def callees_of_site(self, cs, sync_only=False):
         """Local body paths a call site may transfer control to: the resolved local callee, all impls
         for a dyn call, and closures passed as arguments (they are run by the callee, e.g. unlocked_fair,
         map_or, thread spawn — attached to the call they are passed to)."""
@@ -544,9 +591,10 @@ class Program:
         elif t.get("local") and t.get("resolved") not in self.bodies:
             # trait default method or something not in bodies
             pass
-        for c in cs.closure_args():
-            if c in self.bodies:
-                out.append(c)
+        if not (sync_only and cs.name in self.DETACHED):
+            for c in cs.closure_args():
+                if c in self.bodies:
+                    out.append(c)
         return out
 
     def dyn_targets(self, t):
@@ -570,30 +618,46 @@ class Program:
                 out.append(im)
         return out
 
-    def callgraph(self):
+    def callgraph(self, sync_only=False):
         if self._cg is None:
+            self._cg = {}
+        if sync_only not in self._cg:
             cg = {}
             for p, b in self.bodies.items():
                 s = set()
+                detached = set()
                 for cs in b.calls():
-                    for c in self.callees_of_site(cs):
+                    for c in self.callees_of_site(cs, sync_only):
                         s.add(c)
+                    if sync_only and cs.name in self.DETACHED:
+                        detached |= set(cs.closure_args())
                 # closures constructed in the body but not passed to a call directly are also attached
                 for bb in b.blocks:
                     for st in bb["stmts"]:
                         if st["k"] == "assign" and st["rv"]["k"] == "aggregate" and st["rv"].get("closure"):
-                            if st["rv"]["closure"] in self.bodies:
-                                s.add(st["rv"]["closure"])
+                            c = st["rv"]["closure"]
+                            if c in self.bodies and c not in detached:
+                                # boxed callbacks (Box::new(closure)) are detached too when sync_only
+                                if sync_only and self._is_boxed_callback(b, c):
+                                    continue
+                                s.add(c)
                 cg[p] = s
-            self._cg = cg
-        return self._cg
+            self._cg[sync_only] = cg
+        return self._cg[sync_only]
 
-    def reach_set(self, path, exclude_edges=None):
-        """All local bodies transitively reachable from path (including itself)."""
-        key = (path, None if exclude_edges is None else id(exclude_edges))
+    def _is_boxed_callback(self, body, closure_path):
+        for cs in body.calls():
+            if cs.name == "std::boxed::Box::new" and closure_path in cs.closure_args():
+                return True
+        return False
+
+    def reach_set(self, path, exclude_edges=None, sync_only=False):
+        """All local bodies transitively reachable from path (including itself). With sync_only, closures
+        handed to thread spawn or registered as boxed callbacks are not followed."""
+        key = (path, sync_only, None if exclude_edges is None else id(exclude_edges))
         if key in self._reach and exclude_edges is None:
             return self._reach[key]
-        cg = self.callgraph()
+        cg = self.callgraph(sync_only)
         seen = {path}
         dq = deque([path])
         while dq:
@@ -618,31 +682,32 @@ class Program:
                     out.append(cs)
         return out
 
-    def site_reaches(self, cs, pred, _memo=None):
+    def site_reaches(self, cs, pred, sync_only=False):
         """Does this call site call (directly, via helper, via closure arg, via dyn impl) something
         matching pred?"""
         m = matcher(pred)
         if m(cs):
             return True
-        for c in self.callees_of_site(cs):
-            if self.fn_reaches(c, m):
+        for c in self.callees_of_site(cs, sync_only):
+            if self.fn_reaches(c, pred, sync_only):
                 return True
         return False
 
-    def fn_reaches(self, path, pred):
+    def fn_reaches(self, path, pred, sync_only=False):
         m = matcher(pred)
-        key = ("fr", path, id(pred) if callable(pred) else repr(pred))
-        if key in self._reach:
+        key = None if callable(pred) else ("fr", path, sync_only, repr(pred))
+        if key is not None and key in self._reach:
             return self._reach[key]
         res = False
-        for p in self.reach_set(path):
+        for p in self.reach_set(path, sync_only=sync_only):
             for cs in self.bodies[p].calls():
                 if m(cs):
                     res = True
                     break
             if res:
                 break
-        self._reach[key] = res
+        if key is not None:
+            self._reach[key] = res
         return res
 
     def callers_of(self, pred):
